@@ -891,6 +891,58 @@ pub fn record_main(args: &[String]) -> i32 {
             }
         }
     }
+    // third family, "tangled" timelines: objects sharing a timestamp, long multi-span sliders and spinners that later objects
+    // start inside of, lines out of time order in the file (the decoder sorts), slider-velocity sections and tick rate 2
+    let n_tangled = if tier == "thorough" { 24 } else { 4 };
+    for i in 0..n_tangled {
+        for (mi, mode) in ["osu", "taiko", "catch", "mania"].iter().enumerate() {
+            let mut lines: Vec<(i64, String)> = Vec::new();
+            let mut t: i64 = 800;
+            let n = rng.gen_range(6..16);
+            for k in 0..n {
+                t += [0i64, 0, 90, 180, 400][rng.gen_range(0..5)];
+                let x = if *mode == "mania" { 64 + 128 * rng.gen_range(0..4) } else { rng.gen_range(40..470) };
+                let y = rng.gen_range(40..340);
+                let snd = [0u32, 2, 8, 4][rng.gen_range(0..4)];
+                match rng.gen_range(0..10) {
+                    0..=5 => lines.push((t, format!("{x},{y},{t},1,{snd}"))),
+                    6..=7 if *mode != "mania" => {
+                        let slides = [1u32, 2, 4][rng.gen_range(0..3)];
+                        let len = [70u32, 140, 280][rng.gen_range(0..3)];
+                        lines.push((t, format!("{x},{y},{t},2,{snd},L|{}:{y},{slides},{len}", x + len as i64)));
+                    }
+                    8 if *mode != "mania" => lines.push((t, format!("256,192,{t},12,{snd},{}", t + [300i64, 1500][rng.gen_range(0..2)]))),
+                    _ if *mode == "mania" => lines.push((t, format!("{x},192,{t},128,{snd},{}:0:0:0:0:", t + [200i64, 900][rng.gen_range(0..2)]))),
+                    _ => lines.push((t, format!("{x},{y},{t},1,{snd}"))),
+                }
+                let _ = k;
+            }
+            // file order: rotate a few lines out of place
+            if lines.len() > 3 {
+                let a = rng.gen_range(0..lines.len());
+                let b = rng.gen_range(0..lines.len());
+                lines.swap(a, b);
+            }
+            let text = format!(
+                "osu file format v14\n\n[General]\nMode: {mi}\n\n[Difficulty]\nHPDrainRate:5\nCircleSize:4\nOverallDifficulty:7\nApproachRate:9\nSliderMultiplier:1.4\nSliderTickRate:2\n\n[TimingPoints]\n0,400,4,2,0,100,1,0\n1500,-50,4,2,0,100,0,1\n2600,-200,4,2,0,100,0,0\n\n[HitObjects]\n{}\n",
+                lines.iter().map(|l| l.1.clone()).collect::<Vec<_>>().join("\n")
+            );
+            let Ok(map) = Beatmap::from_bytes(text.as_bytes()) else { continue };
+            let ci = rng.gen_range(0..all_cfgs.len());
+            let cfg = mania_mods(&mut rng, mode, &all_cfgs[ci]);
+            maps_used += 1;
+            record_sessions(&mut rec, &mut rng, mode, &map, &cfg, &format!("tangled {mode} #{i} cfg {ci} {:?}", cfg.acronyms));
+            if *mode == "osu" {
+                for t2 in ["taiko", "catch", "mania"] {
+                    let cfg = mania_mods(&mut rng, t2, &all_cfgs[ci]);
+                    if let Ok(conv) = map.clone().convert(mode_of(t2), &cfg.game_mods()) {
+                        maps_used += 1;
+                        record_sessions(&mut rec, &mut rng, t2, &conv, &cfg, &format!("tangled osu #{i} as {t2} {:?}", cfg.acronyms));
+                    }
+                }
+            }
+        }
+    }
     std::fs::write(out_path, rec.lines.join("\n") + "\n").unwrap();
     println!("gradual-record: maps={} sessions={} events={}", maps_used, rec.sessions, rec.lines.len());
     0
